@@ -8,9 +8,9 @@ SPEC = {
     "agrees": "C31.agrees",
     "in_domain": "fun k => C31.in_domain k || C31.in_domain_print k",
     "model_prop": "fun k => implb (C31.in_domain k) (C31.model_prop k) && implb (C31.in_domain_print k) (C31.model_prop_print k)",
-    "n_quick": 640,
+    "n_quick": 560,
     "n_thorough": 40000,
-    "shard": 41,
+    "shard": 36,
     "rule": "see harness/props/c31.go: candle strings = multiplier (1-120 mostly; 0, leading zeros, int32/int64 limits) x every suffix with ~30% noise; "
             "timestamps in 13 zones at DST-transition days, Monday/Sunday edges, month/year edges, midnights, random; TimeframeFromString over all 8 "
             "unit names with signs/noise; TimeframeFromDuration over unit multiples / arbitrary / sub-second; distinct = distinct input; "
